@@ -350,6 +350,16 @@ func TestVerif_C01(t *testing.T) {
 	c.Bound("single_container_keys", []uint64{0, c01TopKey})
 	c.Bound("multi_container_keys", []uint64{0, 1, 2, c01TopKey})
 
+	// (4) multi-container
+	opts := c01Opts(thorough)
+	c.Bound("multi_container_options", len(opts))
+	c01Timed(c, "MultiReads", func() { c01MultiReads(c, []uint64{0, 1, 2, c01TopKey}, opts) })
+	c01Timed(c, "MultiBins", func() { c01MultiBins(c, []uint64{0, 1, c01TopKey}, opts[:5]) })
+	c01Timed(c, "MultiNary", func() { c01MultiNary(c, 2, c.Pick(4, 5), thorough) })
+	if thorough {
+		c01Timed(c, "MultiNary", func() { c01MultiNary(c, 3, 4, thorough) })
+	}
+
 	// (1) reads of single-container bitmaps
 	c01Timed(c, "SingleReads", func() { c01SingleReads(c, "single", shapes, []uint64{0, c01TopKey}, U, U) })
 	// (3a) reads of the threshold families
@@ -367,22 +377,15 @@ func TestVerif_C01(t *testing.T) {
 	c01Timed(c, "SinglePairs", func() { c01SinglePairs(c, "small-family-pairs", small, fam, allProvs[:3], []int{0}) })
 	c01Timed(c, "SinglePairs", func() { c01SinglePairs(c, "family-small-pairs", fam, small, allProvs[:3], []int{0}) })
 	// n-ary unions
-	c01Timed(c, "SingleNary", func() { c01SingleNary(c, "nary", c01MaskShapes(Un), 3, allProvs[:3]) })
+	c01Timed(c, "SingleNary", func() { c01SingleNary(c, "nary", c01MaskShapes([]uint16{0, 1, 65535}), 3, allProvs[:3]) })
+	if thorough {
+		c01Timed(c, "SingleNary", func() { c01SingleNary(c, "nary4", c01MaskShapes(Un), 2, allProvs[:3]) })
+	}
 	famN := fam
 	if len(famN) > 8 {
 		famN = []*c01Shape{fam[0], fam[1], fam[2], fam[5], fam[7], fam[8], fam[11], fam[len(fam)-1]}
 	}
 	c01Timed(c, "SingleNary", func() { c01SingleNary(c, "family-nary", famN, 2, allProvs[:2+c.Pick(0, 1)]) })
-	// (4) multi-container
-	opts := c01Opts(thorough)
-	c.Bound("multi_container_options", len(opts))
-	c01Timed(c, "MultiReads", func() { c01MultiReads(c, []uint64{0, 1, 2, c01TopKey}, opts) })
-	c01Timed(c, "MultiBins", func() { c01MultiBins(c, []uint64{0, 1, c01TopKey}, opts[:5]) })
-	c01Timed(c, "MultiNary", func() { c01MultiNary(c, 2, c.Pick(4, 5), thorough) })
-	if thorough {
-		c01Timed(c, "MultiNary", func() { c01MultiNary(c, 3, 4, thorough) })
-	}
-
 	// (2) the largest product last, so that a deadline hit under load cuts only this part
 	c01Timed(c, "SinglePairs", func() { c01SinglePairs(c, "pairs", pshapes, pshapes, allProvs[:3], kinds) })
 	c.Assume("values outside the boundary universe / threshold families are covered only by the small-scope argument (kernels are position-relative)")
